@@ -1,4 +1,5 @@
 import Shuttle.Lemmas.Reverse
+import Shuttle.Lemmas.Opaque
 /-!
 # C02 — reversal is exact time reversal and an involution
 
@@ -78,6 +79,18 @@ theorem C02_gen_reverse {F A} (trace : F → A → Option Path) (t : DevTask F) 
 theorem C02_gen_reverse_reverse {F A} (trace : F → A → Option Path) (t : DevTask F) (a : A) :
     genPath trace t.reverse.reverse a = genPath trace t a := by
   rw [C02_task_reverse_involutive]
+
+/-- reversal does not look at positions at all: renaming the positions of a path (by any map) and
+reversing commute.  With `C11_trace_positions_opaque` this extends the reversal laws to paths whose
+positions are filled grids, which the harness sends as position tokens. -/
+theorem C02_reverse_positions_opaque (φ : Grid → Grid) (p : Path) :
+    reversePath (Path.mapPos φ p) = (reversePath p).map (Path.mapPos φ) := by
+  rw [reversePath_eq_flip, reversePath_eq_flip]
+  simp only [Option.map_some, Option.some.injEq, flipPath, Path.mapPos, List.map_reverse, List.map_map]
+  congr 1
+  apply List.map_congr_left
+  intro a _
+  cases a <;> simp [Action.flip, Action.mapPos, List.map_reverse]
 
 /-- non-vacuity -/
 example :
